@@ -327,4 +327,4 @@ def likely_different(pc, a, b, guard=None, tries=12, seed=1):
             continue
         if differ + same >= tries:
             break
-    return differ >= 3 and same == 0
+    return differ >= 3 and differ >= same          # provably equal sides never differ on a sample (up to rounding); underflow can make different sides coincide
